@@ -196,7 +196,7 @@ def run(c):
                      "usage protocol P1-P5 (StateBuffer.tla header): one live handle per contract, stack discipline of snapshots, "
                      "handles opened after a block snapshot die with a revert to it, Update/Commit invalidate snapshots, Commit follows Update",
                      "roots compared with the canonical sparse Merkle root of the contents (history independence, C10)",
-                     "TLC 1.8.0"]
+                     "TLC as installed in /opt/veriftools (uses TLCExt!TLCFP and Json!ToJson)"]
     # 1. exhaustive design-level checks (VERIF_C12_FAST=1 skips them: a developer switch used while trying
     #    mutations of the code, the design-level runs do not depend on the code)
     if os.environ.get("VERIF_C12_FAST") == "1":
